@@ -98,7 +98,7 @@ PROPS["C02"] = {
                     "credentials with the real keys, by a leak scan of cookie values and store entries (raw, base64- and hex-decoded views) "
                     "and by trying to open store entries with key material found in the store"],
     "trusted_base": ["Go's crypto/hmac, crypto/aes, crypto/cipher used by the driver to build the oracle tables"],
-    "level_text": "c02_accepted_has_valid_mac (for every presented string: accepted => field 3 decodes to the MAC of name++field1++field2), "
+    "level_text": "c02_save_adopts_only_valid_ticket (a save - login completion or refresh - writes under the ticket the request presents only if that cookie validates, else under the freshly generated one), c02_accepted_has_valid_mac (for every presented string: accepted => field 3 decodes to the MAC of name++field1++field2), "
                   "c02_accepted_alteration_is_issued, c02_mac_input_ambiguity (full characterisation of the unseparated-concatenation "
                   "ambiguity, observation O1), c02_cross_name, c02_parts_order / c02_parts_gap (split cookies), c02_ticket_reads_only_valid "
                   "and c02_ticket_session_from_store (store touched only for a validated ticket) are proved for all inputs of the Gallina "
